@@ -30,7 +30,10 @@ COLLS = [[], [1, -2.5, "a"], (), (1,), (True, 0), set(), {1, 2}, {"k": [1, (-0.0
 
 
 def _short(v):
-    r = repr(v)
+    try:
+        r = repr(v)
+    except ValueError:  # an int with more digits than repr() converts
+        r = f"<int of {v.bit_length()} bits>"
     return r if len(r) <= 40 else r[:24] + ".." + r[-10:]
 
 
